@@ -22,7 +22,7 @@ import subprocess
 from concurrent.futures import ThreadPoolExecutor
 
 from .. import vlib
-from ..eccrig import SECP, SMALL, Enc, h_G, h_mul, retarget
+from ..eccrig import SECP, SMALL, Enc, h_G, h_mul, retarget, retarget_applies, probe_sec1
 
 NETS = ["mainnet", "testnet", "regtest"]
 TYPES = ["p2pkh", "p2wpkh", "p2sh-p2wpkh", "p2pk", "multisig", "p2sh", "p2wsh", "p2sh-p2wsh"]
@@ -247,6 +247,10 @@ def _stage_ab(ctx, models):
         def viol(clause, case):
             ctx.violation(clause, dict(case, stage="B", curve=cn))
 
+        if not retarget_applies(c, probe_sec1, ctx, "utils.point / compute_point"):
+            for row in rows:
+                samples.setdefault(row[1], row)
+            continue
         with retarget(c):
             for row in rows:
                 kind = row[1]
